@@ -3,10 +3,11 @@ import json
 import os
 
 import common
-from . import gradual
+from . import gradual, scoregen
 
 REGISTRY = {}
 REGISTRY.update(gradual.REGISTRY)
+REGISTRY.update(scoregen.REGISTRY)
 
 
 def setup():
@@ -30,7 +31,7 @@ def replay(path):
     obj = json.load(open(path))
     prop = obj["property"]
     kind = obj["replay"].get("kind")
-    for mod in (gradual,):
+    for mod in (gradual, scoregen):
         if kind in mod.REPLAY_KINDS:
             return mod.replay(prop, obj)
     common.log("no replay handler for kind %r" % kind)
